@@ -17,11 +17,14 @@ ChunkList      UsedCodeChunks, UsedDataChunks;
 
 void (*Disassemble)(LargeWord Address, tDisassInfo* pInfo, Boolean IsData, int DataSize);
 
+Boolean IntelHexSyntax;
+
 FILE* Debug;
 
 void dasmdef_init(void) {
     InitCodeChunkList(&CodeChunks);
     InitChunk(&UsedDataChunks);
     InitChunk(&UsedCodeChunks);
-    Disassemble = NULL;
+    Disassemble    = NULL;
+    IntelHexSyntax = False;
 }
